@@ -877,11 +877,11 @@ func lemma1HitDiscriminator(docNum, normBits uint64) {
 
 //@ func (*PostingsIterator).readLocation returns (err)
 //@ thin
-//@ tags [C07]
+//@ tags [C01,C06,C07]
 //@ requires i != nil && l != nil && i.locReader != nil
 // a recycled Location reports exactly the array positions read for it (not those of its previous occupant)
-//@ local ensures err == nil ==> len(l.ap) == int(numArrayPos) && l.pos == pos && l.start == start && l.end == end [C07]
-//@ loop 1 invariant len(l.ap) == int(numArrayPos) && l.pos == pos && l.start == start && l.end == end && 0 <= k [C07]
+//@ local ensures err == nil ==> len(l.ap) == int(numArrayPos) && l.pos == pos && l.start == start && l.end == end [C01,C06,C07]
+//@ loop 1 invariant len(l.ap) == int(numArrayPos) && l.pos == pos && l.start == start && l.end == end && 0 <= k [C01,C06,C07]
 //@ modifies memUvarintReader.C, Location.*[l], elems(uint64), alloc, elems(any)
 //@ end
 
@@ -1395,6 +1395,14 @@ func lemmaUvLenRange(a []byte, o int) {}
 //@ assert totalUvarintBytes#1 : 0 <= $k && $k < freqNorm.numLocs && $a == uint64(locs[locOffset + $k].fieldID) && $b == locs[locOffset + $k].pos && $c == locs[locOffset + $k].start && $d == locs[locOffset + $k].end && int($e) == len(locs[locOffset + $k].arrayposs) && len($more) == len(locs[locOffset + $k].arrayposs) [C01,C09]
 // a term enters the dictionary only with the (non-zero) value writePostings returned for it
 //@ assert (*vellum.Builder).Insert#1 : $val == postingsOffset && postingsOffset > 0 [C01,C08,C09]
+// a field gets the "no doc values" marker exactly when it is not indexed with doc values; a field indexed with doc values
+// gets a block (possibly empty of terms) - assertions at the two stores of the end bound, the marker branch has no call
+//@ assert encoding/binary.PutUvarint#1 : int($x) == len(vellumData) [C01,C09]
+//@ assert encoding/binary.PutUvarint#2 : 0 <= fieldID && fieldID < len(fdvOffsetsStart) ==> $x == fdvOffsetsStart[fieldID] [C01,C03,C09]
+//@ assert encoding/binary.PutUvarint#3 : 0 <= fieldID && fieldID < len(io.IncludeDocValues) && fieldID < len(fdvOffsetsEnd) ==> $x == fdvOffsetsEnd[fieldID] [C01,C03,C09]
+//@ assert store fdvOffsetsEnd#2 : $v == fieldNotUninverted && (0 <= fieldID && fieldID < len(io.IncludeDocValues) ==> !io.IncludeDocValues[fieldID]) [C01,C03,C09]
+//@ assert store fdvOffsetsEnd#1 : 0 <= fieldID && fieldID < len(io.IncludeDocValues) ==> io.IncludeDocValues[fieldID] [C01,C03,C09]
+//@ assert encoding/binary.PutUvarint#4 : 0 <= fieldID && fieldID < len(dictOffsets) ==> $x == dictOffsets[fieldID] [C01,C09]
 // every field of the build gets its section address recorded in the same build
 //@ loop 1 step haskey(io.fieldAddrs, fieldID) && mapget(io.fieldAddrs, fieldID) == fieldStart [C01,C09,C10]
 // per posting of a term: the next freq/norm entry is consumed, and its numLocs location entries
@@ -1649,6 +1657,8 @@ func lemmaUvLenRange(a []byte, o int) {}
 //@ loop 1 invariant 0 <= $k && c.chunkLens == old(c.chunkLens) && (forall j int :: {c.chunkLens[j]} 0 <= j && j < $k && j < len(c.chunkLens) ==> c.chunkLens[j] == 0) [C03,C10]
 //@ ensures c.currChunk == 0 && c.bytesWritten == 0 && len(c.final) == 0 && len(c.chunkMeta) == 0 && len(c.chunkBuf.buf) == 0 && c.chunkBuf.off == 0 && len(c.chunkMetaBuf.buf) == 0 && c.chunkMetaBuf.off == 0 [C03,C10]
 //@ ensures forall j int :: {c.chunkLens[j]} 0 <= j && j < len(c.chunkLens) ==> c.chunkLens[j] == 0 [C03,C10]
+// frame: the coder's own fields and buffers, and of all uint64 storage only its own length table
+//@ modifies chunkedContentCoder.*[c], bytes.Buffer.*, elems(uint64)[base(c.chunkLens)]
 //@ end
 
 // layout: the compressed chunks, one end offset per chunk as varints, then two fixed 8-byte numbers - the length of that
